@@ -375,7 +375,7 @@ class PullOffSettingSuite(PullOffSuite):
 # ============================================================================= C13 / C12 / C14: sessions with humans on a line
 def line_session(rng, *, kind, inertia, ratio=1, offset=0, human_leads=None, n=None, nrows=10, max_bells=15,
                  peal=None, tempo_change=None, early_ms=0, initial_inertia=0, jitter_us=0, n_humans=None,
-                 prelude=None, covers=0, offset_places=0, via_setting=False):
+                 prelude=None, covers=0, offset_places=0, via_setting=False, setting_row=None):
     """Humans strike perfectly evenly on their own line t = A + B * blow.
     prelude = ratio: the session is the SECOND touch on the same rhythm object; in a first touch of six
     rows the same humans rang evenly at `ratio` times the configured interval, then 'Stand next'."""
@@ -450,7 +450,10 @@ def line_session(rng, *, kind, inertia, ratio=1, offset=0, human_leads=None, n=N
         for b in range(1, n + 1):
             if b not in humans:
                 evs.append(ev(Fraction(12, 1000) + Fraction(b, 100000), "assign", b, 1))
-        evs.append(ev(Fraction(91, 1000), "setting", [["inertia", inertia if rng.random() < 0.5 else int(inertia) if inertia == int(inertia) else inertia]]))
+        # (setting_row: ... or only DURING the touch, at the start of that row - the rows before it are rung with inertia 1)
+        t_set = Fraction(91, 1000) if setting_row is None else \
+            a0 + b0 * (setting_row * n + (setting_row // 2) * Fraction(gap)) - b0 / 3
+        evs.append(ev(t_set, "setting", [["inertia", inertia if rng.random() < 0.5 else int(inertia) if inertia == int(inertia) else inertia]]))
     sc = base(spec, n, rh, evs, horizon)
     if via_setting:
         sc.update({"name": "Wheatley", "instance": 5})
@@ -594,6 +597,15 @@ class TempoSuite(PairedSuite):
                                       human_leads=leads, nrows=14, max_bells=rng.choice([5, 8, 15]),
                                       tempo_change=(rng.randint(3, 5), ratio * Fraction(rng.choice([97, 98, 103, 105]), 100)),
                                       jitter_us=jit, via_setting=rng.random() < 0.5)
+            if mode == "change" and i % 3 == 0:
+                # server mode, the band exactly on Wheatley's own line: some rows are rung with inertia 1 (nothing to follow),
+                # then the inertia is set to 0 DURING the touch, and later the band moves to a new steady tempo: the memory
+                # that has to turn over is the configured dataset size, however long inertia 1 lasted
+                r_set = rng.randint(4, 7)
+                a, orc = line_session(rng, kind="regression", inertia=0.0, ratio=1, offset=0, human_leads=False,
+                                      nrows=r_set + 12, max_bells=rng.choice([5, 8]),
+                                      tempo_change=(r_set + rng.randint(1, 2), Fraction(rng.choice([97, 98, 103, 104]), 100)),
+                                      jitter_us=jit, via_setting=True, setting_row=r_set)
             case = {"a": a, "oracle": dict(orc, mode=mode, inertia=a["rhythm"]["inertia"])}
             if mode == "fixed":
                 alone = copy.deepcopy(a)
